@@ -66,10 +66,14 @@ theorem select_just {inp : RunInput} {s : Sys} {n : Name} {nd : Node} (hU : InvU
   obtain ⟨nd', hn', hpc⟩ := h2.inv1.sp n hsusp
   rw [hn] at hn'; cases hn'
   by_cases h0 : nd.status = .none
-  · have obs : ∀ p, IsDepO inp s.events n nd.status p → DepObs inp s.events n p := by
-      intro p hp; rcases hp with a | ⟨_, a⟩
-      · exact a
+  · -- a member of bad_deps / ignored_deps is an observed dependency, or was delivered by a failed calc_dep that is one
+    have obs : ∀ p, IsDepOF inp s.events n nd.status p →
+        ((∃ k, Ev.failure p k ∈ s.events) ∨ Ev.skipIgn p ∈ s.events) → Just inp s n := by
+      intro p hp hrep
+      rcases hp.witness with (a | ⟨_, a⟩) | ⟨c0, k0, a, b⟩
+      · exact Or.inr (Or.inr (Or.inr (Or.inl ⟨p, a, hrep⟩)))
       · exact absurd h0 a
+      · exact Or.inr (Or.inr (Or.inr (Or.inl ⟨c0, a, Or.inl ⟨k0, b⟩⟩)))
     unfold selDecision at hd
     simp only [h0, if_true] at hd
     split at hd
@@ -79,7 +83,7 @@ theorem select_just {inp : RunInput} {s : Sys} {n : Name} {nd : Node} (hU : InvU
         | nil => exact absurd hl hi
         | cons p ps =>
           obtain ⟨a, b⟩ := hnd.ig p (by rw [hl]; simp)
-          exact Or.inr (Or.inr (Or.inr (Or.inl ⟨p, obs p a, Or.inr b⟩)))
+          exact obs p a (Or.inr b)
       · exact Or.inr (Or.inl hi)
     · split at hd
       · rename_i hb
@@ -87,7 +91,7 @@ theorem select_just {inp : RunInput} {s : Sys} {n : Name} {nd : Node} (hU : InvU
         | nil => exact absurd hl hb
         | cons p ps =>
           obtain ⟨a, k, b⟩ := hnd.bd p (by rw [hl]; simp)
-          exact Or.inr (Or.inr (Or.inr (Or.inl ⟨p, obs p a, Or.inl ⟨k, b⟩⟩)))
+          exact obs p a (Or.inl ⟨k, b⟩)
       · split at hd
         · rename_i he; exact Or.inr (Or.inr (Or.inl he))
         · split at hd
@@ -226,7 +230,7 @@ theorem invE_step {inp : RunInput} {s s' : Sys} (h : InvE inp s) (hU : InvU inp 
           · exact absurd b (quiet_not_ign hq u)
           · exact old (Or.inr b)
 
-theorem reach_invUE {inp : RunInput} [NoFailDeliver inp] {s : Sys} (h : Reach inp s) : InvU inp s ∧ InvE inp s := by
+theorem reach_invUE {inp : RunInput} {s : Sys} (h : Reach inp s) : InvU inp s ∧ InvE inp s := by
   induction h with
   | init => exact ⟨init_invU inp, init_invE inp⟩
   | @next s0 s1 c hr hs ih =>
@@ -237,7 +241,7 @@ theorem reach_invUE {inp : RunInput} [NoFailDeliver inp] {s : Sys} (h : Reach in
     | take w => cases hs
     | done w => cases hs
 
-theorem preach_invUE {inp : RunInput} [NoFailDeliver inp] {s : Sys} (h : PReach inp s) : InvU inp s ∧ InvE inp s := by
+theorem preach_invUE {inp : RunInput} {s : Sys} (h : PReach inp s) : InvU inp s ∧ InvE inp s := by
   induction h with
   | init => exact ⟨init_invU inp, init_invE inp⟩
   | @next s0 s1 c hr hs ih =>
@@ -245,10 +249,10 @@ theorem preach_invUE {inp : RunInput} [NoFailDeliver inp] {s : Sys} (h : PReach 
     exact ⟨pstep_invU ih.1 (evSt_of (preach_invF hr) ih.2 hi.1) hs,
       invE_step ih.2 ih.1 hi.1 (pstep_shape hi.1 hi.2 hs)⟩
 
-theorem reach_invU {inp : RunInput} [NoFailDeliver inp] {s : Sys} (h : Reach inp s) : InvU inp s := (reach_invUE h).1
-theorem preach_invU {inp : RunInput} [NoFailDeliver inp] {s : Sys} (h : PReach inp s) : InvU inp s := (preach_invUE h).1
-theorem reach_invE {inp : RunInput} [NoFailDeliver inp] {s : Sys} (h : Reach inp s) : InvE inp s := (reach_invUE h).2
-theorem preach_invE {inp : RunInput} [NoFailDeliver inp] {s : Sys} (h : PReach inp s) : InvE inp s := (preach_invUE h).2
+theorem reach_invU {inp : RunInput} {s : Sys} (h : Reach inp s) : InvU inp s := (reach_invUE h).1
+theorem preach_invU {inp : RunInput} {s : Sys} (h : PReach inp s) : InvU inp s := (preach_invUE h).1
+theorem reach_invE {inp : RunInput} {s : Sys} (h : Reach inp s) : InvE inp s := (reach_invUE h).2
+theorem preach_invE {inp : RunInput} {s : Sys} (h : PReach inp s) : InvE inp s := (preach_invUE h).2
 
 /-- a task reported `unmet` has a direct dependency (as the run determines it) with a failure report -/
 theorem unmet_has_failed_dep {inp : RunInput} {s : Sys} (hU : InvU inp s) (hF : InvF inp s) {t : Name}
